@@ -133,6 +133,7 @@ let run () =
         | ["clear"] -> Some HClear
         | ["size"] -> Some HSize
         | ["walk"; n] -> Some (HWalk (nat_of_int (int_of_string n)))
+        | ["walkget"; n; _] -> Some (HWalk (nat_of_int (int_of_string n)))   (* reads between the steps: same walk *)
         | _ -> None in
       match o with
       | None -> print_endline ("M ?? " ^ line); print_endline "S ??"
